@@ -311,13 +311,25 @@ def _classify_insertion(ctx, f, cfg, n: Node, c: ast.Call, cname, other, Xn, Gn,
     for t in cfg.nodes:
         if t.kind != "test":
             continue
-        tcall = ex.expand(t, t.ast, 4) if isinstance(t.ast, ast.Name) else t.ast
+        tcall = t.ast
+        hops = 0
+        while isinstance(tcall, ast.Name) and hops < 4:
+            # a flag holding the verdict of the curvature test: follow its single binding (without inlining the test)
+            vals = ctx.rd(f).value_exprs(t, tcall.id)
+            if len(vals) != 1 or vals[0][1] is None:
+                break
+            tcall = vals[0][1]
+            hops += 1
+        if isinstance(tcall, ast.Call) and dotted(tcall.func) == "bool" and len(tcall.args) == 1:
+            tcall = tcall.args[0]
         if not isinstance(tcall, ast.Call) or not (dotted(tcall.func) or "").endswith("is_update_X_and_G"):
             continue
         reach = cfg.reachable(cfg.entry, follow_exc=False, edge_ok=lambda a, b, lab: not (a is t and lab is True))
         if n in reach:
             continue
-        tcall = ex.expand(t, tcall, 4)
+        # expand the arguments, not the call itself (the expander would inline the curvature test)
+        tcall = ast.copy_location(ast.Call(func=tcall.func, args=[ex.expand(t, a, 4) for a in tcall.args],
+                                           keywords=[ast.keyword(arg=k.arg, value=ex.expand(t, k.value, 4)) for k in tcall.keywords]), tcall)
         b = bind_args(tcall, isup.node)
         ps = isup.params
         end = "[-1]" if meth == "append" else "[0]"
